@@ -35,7 +35,7 @@ def run(ctx):
         for _ in range(2 if q else 6):
             sn, cs = rng.choice(ANGLES)
             cases.append({'id': len(cases), 'R': R, 'C': C, 'os': rng.choice((1, 2, 3)),
-                          'scale': sp.rj(rng.choice((Fr(1, 2), Fr(3, 4), Fr(1), Fr(5, 4)))),      # in units of px below
+                          'scale': sp.rj(rng.choice((Fr(1, 8), Fr(1, 4), Fr(1, 2), Fr(3, 4), Fr(1), Fr(5, 4)))),      # in units of px below
                           'dist': sp.rj(rng.choice((Fr(1, 2), Fr(1), Fr(3, 2), Fr(2)))),
                           'px': sp.rj(rng.choice((Fr(1), Fr(2), Fr(1, 2)))),
                           'sn': sp.rj(sn), 'cs': sp.rj(cs)})
@@ -76,6 +76,15 @@ def run(ctx):
                 ctx.violation(dict(sig, kind='negative-output'), dict(detail, min=float(out.min())), case=None)
             if name != 'pixel' and abs(out.sum() - img.sum()) > 1e-10 * img.sum():
                 ctx.violation(dict(sig, kind='total-not-kept'), dict(detail, before=float(img.sum()), after=float(out.sum())), case=None)
+            # 1b. sparse frames (point sources on an empty background): ringing of the kernel goes negative before abs()
+            sp_img = np.zeros((R, C))
+            for _ in range(rng.randint(1, 3)):
+                sp_img[rng.randrange(R), rng.randrange(C)] += rng.choice((1.0, 3.0, 10.0))
+            osp = call[name](sp_img)
+            if osp.min() < 0:
+                ctx.violation(dict(sig, kind='negative-output'), dict(detail, min=float(osp.min()), frame='sparse'), case=None)
+            if name != 'pixel' and abs(osp.sum() - sp_img.sum()) > 1e-10 * sp_img.sum():
+                ctx.violation(dict(sig, kind='total-not-kept'), dict(detail, before=float(sp_img.sum()), after=float(osp.sum()), frame='sparse'), case=None)
             # 2. commutation with circular translation
             sh = (rng.randrange(R), rng.randrange(C))
             out_s = call[name](np.roll(img, sh, axis=(0, 1)))
